@@ -37,12 +37,13 @@ open LZ.GenC19Hist (EventRightMax eventMax_right)
 theorem C19_go_text_bup (cfg : Gen.BUPConfig) (s0 : Gen.bucketParser)
     (hinit : bucketParser_init default cfg = Res.ok (s0, Gen.Err.ok))
     (extra : Nat) (grow : Nat → Nat → Nat) (fuel : Nat) (lcp : Slice → Slice → Int) (hlcp : LcpSpec lcp)
+    (SO : SOFun) (hSO : ShiftSpec SO)
     (hfuel : s0.bucketDictionary.ParserBuffer.BufConfig.BufferSize.toNat + 3 ≤ fuel)
     (ops : List GOpU) (hwf : ∀ op ∈ ops, op.WF) :
-    ∃ t rs, runU (rfGo extra) grow fuel lcp s0 ops = Res.ok (t, rs) ∧
+    ∃ t rs, runU (rfGo extra) grow fuel lcp SO s0 ops = Res.ok (t, rs) ∧
       let g := ghostRunU Ghost.init ops rs
       LogAll (EventMax g.fed false s0.bucketDictionary.ParserBuffer.BufConfig.BlockSize.toNat) 0 g.log := by
-  obtain ⟨p, t, rs, hp, h0, h1, -, -, h4, -⟩ := gen_bup_history cfg s0 hinit extra grow fuel lcp hlcp hfuel ops hwf
+  obtain ⟨p, t, rs, hp, h0, h1, -, -, h4, -⟩ := gen_bup_history cfg s0 hinit extra grow fuel lcp hlcp SO hSO hfuel ops hwf
   subst h0
   refine ⟨t, rs, h1, ?_⟩
   intro g
@@ -53,12 +54,13 @@ theorem C19_go_text_bup (cfg : Gen.BUPConfig) (s0 : Gen.bucketParser)
 theorem C19_right_go_text_bup (cfg : Gen.BUPConfig) (s0 : Gen.bucketParser)
     (hinit : bucketParser_init default cfg = Res.ok (s0, Gen.Err.ok))
     (extra : Nat) (grow : Nat → Nat → Nat) (fuel : Nat) (lcp : Slice → Slice → Int) (hlcp : LcpSpec lcp)
+    (SO : SOFun) (hSO : ShiftSpec SO)
     (hfuel : s0.bucketDictionary.ParserBuffer.BufConfig.BufferSize.toNat + 3 ≤ fuel)
     (ops : List GOpU) (hwf : ∀ op ∈ ops, op.WF) :
-    ∃ t rs, runU (rfGo extra) grow fuel lcp s0 ops = Res.ok (t, rs) ∧
+    ∃ t rs, runU (rfGo extra) grow fuel lcp SO s0 ops = Res.ok (t, rs) ∧
       let g := ghostRunU Ghost.init ops rs
       LogAll (EventRightMax g.fed s0.bucketDictionary.ParserBuffer.BufConfig.BlockSize.toNat) 0 g.log := by
-  obtain ⟨t, rs, h1, h2⟩ := C19_go_text_bup cfg s0 hinit extra grow fuel lcp hlcp hfuel ops hwf
+  obtain ⟨t, rs, h1, h2⟩ := C19_go_text_bup cfg s0 hinit extra grow fuel lcp hlcp SO hSO hfuel ops hwf
   exact ⟨t, rs, h1, LogAll.mono (fun pos e he => eventMax_right he) _ _ h2⟩
 
 end LZ.GenBUPHist
